@@ -25,6 +25,7 @@ func smallWorld(r *Rng, base string, maxPkgs, maxDecls int) (*ModuleSpec, []stri
 	cfg.AllowFalse = r.P(0.5)
 	m := DrawModule(r, cfg)
 	scfg := DrawScriptConfig(r)
+	scfg.PDefer = 0.5 // several deferred callbacks per package: a failing one may be followed by succeeding ones
 	gens := []proto.GenScript{Probe()}
 	for _, n := range names {
 		gens = append(gens, DrawScript(r, scfg, m, n))
@@ -229,6 +230,11 @@ func SimC01(c *CheckCtx, i int, r *Rng) error {
 		cfg.MaxPkgs = min(cfg.MaxPkgs, 3)
 	}
 	m := DrawModule(r, cfg)
+	twoModules := i%6 == 5
+	if twoModules {
+		addSubModule(r, cfg, m)
+		c.Env.Stats.Add("probe/two-module-world", 1)
+	}
 	scfg := DrawScriptConfig(r)
 	scfg.PDeclTypes = 0.5 // single-run scenarios may render new named types
 	scfg.PRefs = 0.5
@@ -239,6 +245,16 @@ func SimC01(c *CheckCtx, i int, r *Rng) error {
 	}
 	eps := drawEntrypoints(r, m)
 	args := proto.GenArgs{Entrypoint: spell(r, m, eps), Base: base, All: r.P(0.7), Globals: drawGlobals(r, names)}
+	if twoModules {
+		// one run over packages of both modules; without All (where gengo.sum lives is another matter)
+		args.All = false
+		forceSubRefs(m, gens)
+		var all []int
+		for k := range m.Pkgs {
+			all = append(all, k)
+		}
+		args.Entrypoint = spell(r, m, all)
+	}
 	victim := &RunOp{Args: args, Gens: gens, Sched: drawSched(r), Fresh: true}
 	var setup []Op
 	if r.P(0.3) {
@@ -340,4 +356,44 @@ func SimC01(c *CheckCtx, i int, r *Rng) error {
 	}
 	c.Env.Stats.Sample(map[string]any{"sim": i, "module": m.ModPath, "go": m.GoVer, "packages": len(m.Pkgs), "generators": names, "events": len(evs), "io_failure_points": len(points)}, 3)
 	return nil
+}
+
+// addSubModule appends two packages that live in a second, locally replaced module with its own
+// module path (no dot: gofumpt tells std from non-std imports by the module path) and go version.
+func addSubModule(r *Rng, cfg SpecConfig, m *ModuleSpec) {
+	m.Sub = &SubModule{Dir: "libb", Path: Pick(r, []string{"libb", "corp/libb"}), GoVer: "1.18"} // never newer than the main module's go version
+	cfg.PNested, cfg.PStd = 0, 0
+	base := len(m.Pkgs)
+	for k, dir := range []string{"libb/sub", "libb"} {
+		p := &PkgSpec{Dir: dir, Name: dir[strings.LastIndex(dir, "/")+1:], InSub: true}
+		if k == 1 {
+			p.Imports = []int{base}
+		}
+		p.DocTags = drawTags(r, cfg.GenNames, 0.9, false)
+		drawDecls(r, cfg, p, base+k)
+		m.Pkgs = append(m.Pkgs, p)
+	}
+}
+
+// forceSubRefs makes the first generator render, for the sub-module's root package, references to a
+// std package and to the sub-module's other package: the import block then needs both groups.
+func forceSubRefs(m *ModuleSpec, gens []proto.GenScript) {
+	n := len(m.Pkgs)
+	if m.Sub == nil || n < 2 || len(gens) < 2 {
+		return
+	}
+	root, sub := n-1, n-2
+	g := &gens[1]
+	key := m.ImportPath(root) + " " + m.Pkgs[root].Anchor
+	g.Rules[key] = proto.Rule{Render: []proto.Part{
+		{Text: "\nvar SubRefStd "}, {Ref: "container/list.List"}, {Text: "\n\nvar SubRefLocal "}, {Ref: m.ImportPath(sub) + "." + m.Pkgs[sub].Anchor}, {Text: "\n"},
+	}}
+	// make sure the anchor is enabled for that generator
+	for _, f := range m.Pkgs[root].Files {
+		for _, d := range f.Decls {
+			if d.Name == m.Pkgs[root].Anchor {
+				d.Tags = []Tag{{Marker: "+", Key: "gengo:" + g.Name}}
+			}
+		}
+	}
 }
